@@ -16,7 +16,8 @@
      (H2) C05_rest_stale_clock_refuted    cex_rest_stale_clock  MODEL ARTEFACT: LUser carries its own clock reading;
           with a reading older than the system clock the hook arms the timer in the past and nothing fires it.
      (H3) C05_rest_no_retry_refuted       cex_rest_no_retry     the fire is consumed and the head announced;
-          MarkAsDispatched fails without effect (so the hook is not called: nothing re-arms); the driver calls Step
+          MarkAsDispatched fails without effect (FBefore: the hook is not called, nothing re-arms; with FBeforeHook
+          - the core call failed, the wrapper still ran the hook - the timer IS re-armed); the driver calls Step
           instead of Retry(DispatchErr): Step waits on an idle timer with the head due.
    PROVED (strongest true variants):
      rest_no_due               R s, pc = PSelect, no pending fire, hook started, hook reports no error ==> no due task.
@@ -535,6 +536,32 @@ Proof.
   destruct D as (c & Ec & M1 & _). unfold cache_id. rewrite Ec. cbn. congruence.
 Qed.
 
+(* the hook's part of MarkAsDispatched alone, on an unchanged repository (the core call failed without effect and
+   the wrapper still ran the hook: FBeforeHook): nothing, or the re-arming routine *)
+Lemma hook_dispatched_only_J now u f n id : J now u -> J now (hook_dispatched f n id u).
+Proof.
+  intros HJ. unfold hook_dispatched. destruct (hk_cached (hs_hook u)) as [c|]; [|exact HJ].
+  destruct (String.eqb id (t_id c)); [|exact HJ].
+  destruct HJ as [[A B C D E] F]. apply hk_update_J; auto.
+Qed.
+Lemma ghost_hookfn f n F h owed now :
+  hshape f n F (hs_repo h) (hs_hook h) -> (owed = true -> hs_timer h = timer_idle) ->
+  tfuture now (hs_timer h) -> inst n = inst now ->
+  tfuture now (hs_timer (F h)) /\
+  exists owed', F (ghost h owed) = ghost (F h) owed'
+    /\ (owed' = true -> owed = true /\ hs_timer (F h) = timer_idle /\ cache_id (hs_hook (F h)) = cache_id (hs_hook h)).
+Proof.
+  intros Sh Ho Tf En. destruct h as [r hk t]. cbn [hs_timer hs_repo hs_hook] in *.
+  destruct Sh as [(h' & A & B & C & D)|[S D]].
+  - rewrite D. cbn [hs_timer hs_hook]. split; [exact Tf|]. exists owed. split.
+    + unfold ghost, tswap. cbn [hs_repo hs_hook hs_timer]. rewrite D. reflexivity.
+    + intros E. auto.
+  - rewrite D. split; [apply tfuture_hk_update; auto|]. exists false. split; [|discriminate].
+    unfold ghost at 1, tswap. cbn [hs_repo hs_hook hs_timer]. rewrite D.
+    unfold ghost. rewrite tswap_self. destruct owed; [|reflexivity].
+    rewrite (Ho eq_refl). apply hk_update_drained; exact S.
+Qed.
+
 (* MarkAsDispatched of the scheduler, with its fault *)
 Lemma R_mark_disp s s' f hf id :
   wf_repo (repo_of s) -> R s ->
@@ -546,6 +573,14 @@ Proof.
   - apply (R_hop s s' (HDispatch hf (sy_now s) id)); auto; exact Logic.I.
   - apply (R_same_h s); auto. intros O. apply K; auto. + rewrite Eh. apply (ow_idle s O). + rewrite Eh. reflexivity.
   - apply (R_hop s s' (HDispatch hf (sy_now s) id)); auto; exact Logic.I.
+  - (* the hook alone, on the unchanged repository *)
+    destruct HR as (owed & HJ & Tf & Ow).
+    assert (Ho : owed = true -> hs_timer (sy_h s) = timer_idle) by (intros E; apply (ow_idle s (Ow E))).
+    destruct (ghost_hookfn hf (sy_now s) (hook_dispatched hf (sy_now s) id) (sy_h s) owed (sy_now s)
+                (hook_dispatched_shape _ _ _ _ _) Ho Tf eq_refl) as (Tf' & owed' & Eg & P).
+    exists owed'. rewrite Eh, En. split; [|split]; auto.
+    + rewrite <- Eg. apply hook_dispatched_only_J. exact HJ.
+    + intros E. destruct (P E) as (E1 & E2 & E3). rewrite <- Eh in E2, E3. apply K; auto.
 Qed.
 
 (* one scheduler call *)
@@ -868,7 +903,9 @@ Qed.
 Lemma call_mark_disp_started f hf n id h :
   hk_started (hs_hook (fst (call_mark_disp hcfg_fixed f hf n id h))) = hk_started (hs_hook h).
 Proof.
-  unfold call_mark_disp, faulty. destruct f; cbn [fst]; auto; apply (hstep_started hcfg_fixed h (HDispatch hf n id)).
+  unfold call_mark_disp, faulty. destruct f; cbn [fst]; auto;
+    try apply (hstep_started hcfg_fixed h (HDispatch hf n id)).
+  apply (proj2 (hook_dispatched_frame hf n id h)).
 Qed.
 
 Definition user_nofault (l : slabel) : Prop := match l with LUser o _ => hop_fault o = false | _ => True end.
